@@ -63,7 +63,7 @@ def hop_expr_cases(src):
             X = tn.leaf("X", xr)
             ops = [tn.leaf(f"O{i}", 4) for i in range(nsite)]
             env = {pl: tn.leaf("L", lr), pr: tn.leaf("R", lr), pc: OpList(tn, ops, two), px: ShapeOf(X), pt: two}
-            return env
+            return {**module_literals(src, HOP), **env}
         key = f"hop_expr[nsite={nsite},ancilla={anc},twolayer={two}]"
         want = tna.canon_heff(nsite, anc, two, "apply")
         out.append(run_hop(fi, build, want, key))
@@ -78,21 +78,26 @@ class ShapeOf(list):
 
 
 class OpList(list):
-    """list of operator site tensors; in two-layer kernels the same list entry is used once per layer:
-    the first use of cmo[i] is layer 1 (O_i), the second use is layer 2 (Q_i)"""
+    """list of operator site tensors; in two-layer kernels the same list entry enters the network once per layer: the first time entry i is consumed as an operand of a
+    contraction it is layer 1 (O_i), the second time layer 2 (Q_i) - however the code got hold of the entry (indexing, a local list, a loop)"""
     def __init__(self, tn, ops, twolayer):
         super().__init__(ops)
         self.tn, self.two = tn, twolayer
         self.used = {}
         self.q = {}
 
-    def take(self, i):
+    def consume(self, v):
+        for i, leaf in enumerate(self):
+            if leaf is v:
+                break
+        else:
+            return v
         n = self.used.get(i, 0)
         self.used[i] = n + 1
         if n == 0 or not self.two:
             if n > 0:
                 raise Malformed(f"operator site {i} used {n + 1} times in a single-layer kernel")
-            return list.__getitem__(self, i)
+            return v
         if n == 1:
             if i not in self.q:
                 self.q[i] = self.tn.leaf(f"Q{i}", 4)
@@ -100,11 +105,30 @@ class OpList(list):
         raise Malformed(f"operator site {i} used {n + 1} times")
 
 
+def module_literals(src, rel):
+    """module-level names bound to literals (contraction subscripts and paths hoisted out of the kernels)"""
+    out = {}
+    mod = src.modules.get(rel)
+    for st in (mod.body if mod is not None else []):
+        if isinstance(st, ast.Assign) and len(st.targets) == 1 and isinstance(st.targets[0], ast.Name):
+            try:
+                out[st.targets[0].id] = ast.literal_eval(st.value)
+            except (ValueError, SyntaxError, TypeError):
+                pass
+    return out
+
+
 class HopInterp(Interp):
+    def operand(self, v):
+        for x in self.env.values():
+            if isinstance(x, OpList):
+                v = x.consume(v)
+        return v
+
     def ev(self, e):
         if isinstance(e, ast.Subscript) and isinstance(e.value, ast.Name) and isinstance(self.env.get(e.value.id), OpList) and isinstance(e.ctx, ast.Load):
             i = self.ev(e.slice)
-            return self.env[e.value.id].take(i)
+            return list.__getitem__(self.env[e.value.id], i)
         if isinstance(e, ast.Name) and isinstance(self.env.get(e.id), ShapeOf) and getattr(self, "_as_operand", False):
             return self.env[e.id].x
         return super().ev(e)
@@ -114,17 +138,17 @@ class HopInterp(Interp):
         if short in ("oe_contract", "oe_contract_expression", "einsum"):
             spec = self.ev(e.args[0])
             ops = []
-            for a in e.args[1:]:
-                self._as_operand = True
-                try:
-                    v = self.ev(a)
-                finally:
-                    self._as_operand = False
+            self._as_operand = True
+            try:
+                vals = self.star_args(e.args[1:])
+            finally:
+                self._as_operand = False
+            for v in vals:
                 if isinstance(v, ShapeOf):
                     v = v.x
                 if not isinstance(v, T):
-                    raise AnalysisError(f"operand {unparse(a)} of {short} is not a tensor value")
-                ops.append(v)
+                    raise AnalysisError(f"operand {v!r} of {short} in `{unparse(e)[:60]}` is not a tensor value")
+                ops.append(self.operand(v))
             self.calls.append((short, spec, e.lineno))
             return tna.einsum(self.tn, spec, ops)
         return super().call(e)
@@ -162,7 +186,7 @@ def ham_direct_cases(src):
         def build(tn, nsite=nsite, two=two):
             lr = 4 if two else 3
             ops = [tn.leaf(f"O{i}", 4) for i in range(nsite)]
-            return {ps[1]: _Mask(), ps[2]: tn.leaf("L", lr), ps[3]: tn.leaf("R", lr), ps[4]: OpList(tn, ops, two), ps[5]: (0.5 if two else None),
+            return {**module_literals(src, GS), ps[1]: _Mask(), ps[2]: tn.leaf("L", lr), ps[3]: tn.leaf("R", lr), ps[4]: OpList(tn, ops, two), ps[5]: (0.5 if two else None),
                     f"{ps[0]}.optimize_config.method": "1site" if nsite == 1 else "2site", "OE_BACKEND": "numpy"}
         key = f"get_ham_direct[{nsite}site,omega={'set' if two else 'None'}]"
         tn = TN()
@@ -215,7 +239,7 @@ class DirectInterp(HopInterp):
     def _pyvalue(self, e):
         """index expressions: python tuples / slices / ints built from literals, local names and the mask"""
         from .syminterp import SymInterp
-        names = {k: v for k, v in self.env.items() if isinstance(k, str) and k.isidentifier() and isinstance(v, (int, float, str, bool, tuple, list, slice, _Mask, type(None)))}
+        names = {k: v for k, v in self.env.items() if isinstance(k, str) and k.isidentifier() and isinstance(v, (int, float, str, bool, tuple, list, dict, slice, _Mask, T, type(None)))}
         it = SymInterp(None, None, {"slice": slice, "Ellipsis": Ellipsis})
         try:
             return it.ev(e, dict(names))
@@ -234,7 +258,7 @@ class DirectInterp(HopInterp):
         try:
             return super().ev(e)
         except Unknown:
-            if isinstance(e, (ast.Tuple, ast.BinOp, ast.IfExp, ast.Call, ast.Name, ast.Compare, ast.BoolOp)) and not (isinstance(e, ast.Call) and unparse(e.func).split(".")[-1] in self.CONTRACT):
+            if isinstance(e, (ast.Tuple, ast.List, ast.ListComp, ast.BinOp, ast.IfExp, ast.Call, ast.Name, ast.Compare, ast.BoolOp, ast.Subscript)) and not (isinstance(e, ast.Call) and unparse(e.func).split(".")[-1] in self.CONTRACT):
                 return self._pyvalue(e)
             raise
 
@@ -314,7 +338,7 @@ def hdiag_cases(src):
         tn = TN()
         lr = 4 if two else 3
         ops = [tn.leaf(f"O{i}", 4) for i in range(nsite)]
-        env = {ps[2]: tn.leaf("L", lr), ps[3]: tn.leaf("R", lr), ps[4]: OpList(tn, ops, two), ps[5]: (0.5 if two else None),
+        env = {**module_literals(src, GS), ps[2]: tn.leaf("L", lr), ps[3]: tn.leaf("R", lr), ps[4]: OpList(tn, ops, two), ps[5]: (0.5 if two else None),
                "method": "1site" if nsite == 1 else "2site", f"{ps[0]}.optimize_config.method": "1site" if nsite == 1 else "2site",
                f"{ps[0]}.optimize_config.inverse": 1.0, "OE_BACKEND": "numpy", f"{ps[1]}.shape": shape_tok}
         it = DiagInterp(tn, env)
